@@ -178,7 +178,7 @@ def cases(tier):
     boxes = CATALOGUE[:7] if tier == "quick" else CATALOGUE
     K = 3
     T = 300 if tier == "quick" else 900
-    Tc = 60 if tier == "quick" else 900
+    Tc = 60 if tier == "quick" else 240
     for method in ("clip", "toroidal", "reflect"):
         for box in boxes:
             cs.append(dict(name=f"repair.{method}.box{tuple(box)}", fn=h_repair, params=dict(method=method, box=list(box), K=K),
@@ -191,7 +191,7 @@ def cases(tier):
     Kc = 1 if tier == "quick" else 2
     # (quick: prescribed movement is decided on the boundary-input cases below; the per-translate queries over *all* inputs of
     #  a translate need minutes each and run in the thorough tier only)
-    cboxes = [] if tier == "quick" else CATALOGUE[:5] + CATALOGUE[7:]
+    cboxes = [] if tier == "quick" else [(-20.0, 20.0), (0.0, 1.0), (-0.1, 0.2), (0.1, 0.7)]
     for method in ("toroidal", "reflect"):
         for box in cboxes:
             for region in range(-(2**Kc), 2**Kc):
@@ -210,10 +210,10 @@ def cases(tier):
     if tier == "thorough":
         for method in ("toroidal", "reflect"):
             cs.append(dict(name=f"repair.{method}.symbolic-box", fn=h_repair, params=dict(method=method, box=None, K=K),
-                           profile="fp", portfolio=True, fmod_K=K, oblig_timeout_s=1800, separate=True, optional=True, cores=3, weight=20,
+                           profile="fp", portfolio=True, fmod_K=K, oblig_timeout_s=900, separate=True, optional=True, cores=3, weight=20,
                            soft=["*"]))
             for box in [(-20.0, 20.0), (-0.1, 0.2), (0.0, 1.0)]:
                 cs.append(dict(name=f"repair.{method}.box{box}.K6", fn=h_repair, params=dict(method=method, box=list(box), K=6),
-                               profile="fp", portfolio=True, fmod_K=6, oblig_timeout_s=1800, separate=True, optional=True, cores=3, weight=10,
+                               profile="fp", portfolio=True, fmod_K=6, oblig_timeout_s=600, separate=True, optional=True, cores=3, weight=10,
                                soft=["*"]))
     return cs
